@@ -373,6 +373,44 @@ func c20ResolutionSet(c *vlib.Ctx, idx int64) {
 	}
 	runPatterns(svc, "file")
 
+	// the entry's content changes in the store and the template cache is invalidated: the next processed
+	// request must return the NEW content (a payload is "that entry's content", not what it once was)
+	if idx%2 == 1 {
+		pcomp := fmt.Sprintf("%s-p%d", comp, 15)
+		key := pcomp + "|" + rt + "|" + role
+		if parts, ok := tpls[key]; ok {
+			qs := pcomp + "/" + rt + "/" + role + "/" + entryPath
+			desc := c20Resolution{Comp: pcomp, RT: rt, Role: role, Entry: entryPath, Pattern: 15, Query: qs, Vars: varSets, Backend: "file, content updated + cache invalidated"}
+			id := c.Case(desc)
+			q, qerr := componentcfg.NewQuery(qs)
+			if qerr == nil {
+				if res, rerr := svc.ResolveComponentQuery(q); rerr == nil && res != nil {
+					_, _ = svc.GetAndProcessComponentConfiguration(res, varSets[0]) // make sure it is cached
+					newParts := append([]tplPart{{Lit: "v2 "}}, parts...)
+					putEntry(comps[pcomp].(map[string]interface{}), rt, role, entry, tplText(newParts))
+					b2, _ := json.Marshal(root)
+					if werr := os.WriteFile(path, b2, 0o644); werr == nil {
+						svc.InvalidateComponentTemplateCache()
+						c.Count("payloads_after_update_and_invalidate", 1)
+						for vi, vs := range varSets {
+							got, gerr := svc.GetAndProcessComponentConfiguration(res, vs)
+							wantP := tplRef(newParts, vs)
+							if gerr != nil {
+								c.Violation("TEMPLATE", "render-error/after-invalidate", fmt.Sprintf("processing %s after update+invalidate: %v", res.Raw(), gerr), id, desc)
+								break
+							}
+							if got != wantP {
+								c.Violation("TEMPLATE", "stale-payload-after-invalidate", fmt.Sprintf("processing %s varset %d after the entry was updated and the template cache invalidated: got %q want %q", res.Raw(), vi, got, wantP), id, desc)
+								break
+							}
+						}
+						tpls[key] = newParts
+					}
+				}
+			}
+		}
+	}
+
 	// the same tree in a Consul key/value store (fake Consul agent), the production backend
 	if idx%2 == 0 {
 		cs := simconsul.New()
